@@ -1,5 +1,5 @@
 (* Extraction of the executable model. ExtrOcamlBasic only: bool, option, unit, prod, list, sumbool map
    to OCaml's; Z/positive/N/nat stay Coq datatypes. No user Extract directive. *)
 From Coq Require Import Extraction ExtrOcamlBasic.
-Require Import Model.Base Model.Ante Model.Validate Model.Current Model.Cases.
-Extraction "model.ml" run_case Z.add Z.mul Z.sub Z.div Z.modulo Z.opp Z.ltb Z.eqb Z.of_nat.
+Require Import Model.Base Model.Ante Model.Validate Model.Current Model.Cases Model.State Model.App.
+Extraction "model.ml" run_case run_history Z.add Z.mul Z.sub Z.div Z.modulo Z.opp Z.ltb Z.eqb Z.of_nat.
